@@ -28,6 +28,7 @@ import (
 	"github.com/form3tech-oss/f1/v2/internal/trigger/users"
 	"github.com/form3tech-oss/f1/v2/internal/ui"
 	"github.com/form3tech-oss/f1/v2/internal/verifhook"
+	"github.com/form3tech-oss/f1/v2/pkg/f1"
 	"github.com/form3tech-oss/f1/v2/pkg/f1/scenarios"
 	f1testing "github.com/form3tech-oss/f1/v2/pkg/f1/testing"
 )
@@ -110,7 +111,11 @@ func init() {
 			id               string
 			startSeq, endSeq int64
 			start            time.Time
+			bodyDone         atomic.Bool
+			cleanups         atomic.Int64
 		}
+		var idChanged, cleanupEarly atomic.Int64
+		trackCleanup := p["trackcleanup"] == "1"
 		iters := map[string]*iterRec{}
 		var started, finished, inflight, maxflight, shared, truthS, truthF, envBad atomic.Int64
 		live := map[*f1testing.T]int{}
@@ -158,6 +163,14 @@ func init() {
 					shared.Add(1)
 				}
 				mu.Unlock()
+				if trackCleanup {
+					t.Cleanup(func() {
+						if !rec.bodyDone.Load() {
+							cleanupEarly.Add(1)
+						}
+						rec.cleanups.Add(1)
+					})
+				}
 				if cleanupD > 0 || p["cleanup"] == "0x" {
 					t.Cleanup(func() {
 						lastCleanupSeq.Store(seq.Add(1))
@@ -166,6 +179,10 @@ func init() {
 				}
 				num := atoi(id)
 				defer func() {
+					if t.Iteration != id {
+						idChanged.Add(1)
+					}
+					rec.bodyDone.Store(true)
 					mu.Lock()
 					live[t]--
 					mu.Unlock()
@@ -292,7 +309,21 @@ func init() {
 		}
 		out := ui.NewOutput(slog.New(ch), ui.NewDiscardPrinter(), false, false)
 		m := metrics.NewInstance(prometheus.NewRegistry(), true, nil)
-		scs := scenarios.New().Add(&scenarios.Scenario{Name: "s", ScenarioFn: scenarioFn})
+		topFn := f1testing.ScenarioFn(scenarioFn)
+		var setupHandle atomic.Pointer[f1testing.T]
+		var gotSetupHandle atomic.Int64
+		if p["combine"] == "1" { // the scenario is one component of a combined scenario; a second one watches the handles
+			second := func(st *f1testing.T) f1testing.RunFn {
+				setupHandle.Store(st)
+				return func(it *f1testing.T) {
+					if it == setupHandle.Load() || it.Iteration == "setup" {
+						gotSetupHandle.Add(1)
+					}
+				}
+			}
+			topFn = f1.CombineScenarios(scenarioFn, second)
+		}
+		scs := scenarios.New().Add(&scenarios.Scenario{Name: "s", ScenarioFn: topFn})
 		opts := options.RunOptions{Scenario: "s", MaxDuration: ms(p["dur"]), Concurrency: conc, Verbose: true,
 			MaxIterations: atou64(p["maxit"]), IgnoreDropped: p["igndrop"] == "1", MaxFailures: atou64(p["maxfail"]),
 			MaxFailuresRate: atoi(p["maxfailrate"])}
@@ -417,6 +448,18 @@ func init() {
 		mu.Unlock()
 		d, mn, mx := idStats(ids)
 		gapless := d == len(ids) && (len(ids) == 0 || (mn == 1 && mx == uint64(len(ids))))
+		lastStart := int64(-1)
+		cleanupBad := 0
+		mu.Lock()
+		for _, it := range iters {
+			if trackCleanup && it.cleanups.Load() != 1 {
+				cleanupBad++
+			}
+			if ms := it.start.Sub(t0).Milliseconds(); ms > lastStart {
+				lastStart = ms
+			}
+		}
+		mu.Unlock()
 		// lifecycle order
 		setupFirst := 1
 		for _, it := range iters {
@@ -469,11 +512,13 @@ func init() {
 		_ = sort.Ints
 		return fmt.Sprintf("ret=%d started=%d finished=%d inflight=%d startedAfter=%d progressAfter=%d gapless=%s maxid=%d "+
 			"maxflight=%d shared=%d res=%d/%d/%d truth=%d/%d metrics=%d/%d/%d/%d evals=%d sumrates=%d lastval=%d cadence=%s "+
-			"setups=%d setupFirst=%d tdLast=%d tdOrder=%d failed=%d err=%d leak=%d envBad=%d envAfter=%s stageOrderBad=%d",
+			"setups=%d setupFirst=%d tdLast=%d tdOrder=%d failed=%d err=%d leak=%d envBad=%d envAfter=%s stageOrderBad=%d "+
+			"laststart=%d trigdur=%d idchanged=%d cleanupBad=%d cleanupEarly=%d setupHandleInIteration=%d",
 			ret.Milliseconds(), startedAtRet, finishedAtRet, inflightAtRet, startedAfter, progressAfter, boolTok(gapless), mx,
 			maxflight.Load(), shared.Load(), sn.SuccessfulIterationDurations.Count, sn.FailedIterationDurations.Count,
 			sn.DroppedIterationCount, truthS.Load(), truthF.Load(), g.succ, g.fail, g.dropped, g.setupSucc+g.setupFail,
 			evals, sum, lastVal, cadence, setupCount.Load(), setupFirst, tdLast, tdOrder, failed, hasErr, leak,
-			envBad.Load(), envAfter, stageSeqBad.Load())
+			envBad.Load(), envAfter, stageSeqBad.Load(), lastStart, trig.Duration.Milliseconds(),
+			idChanged.Load(), cleanupBad, cleanupEarly.Load(), gotSetupHandle.Load())
 	})
 }
